@@ -310,8 +310,8 @@ theorem combineTwo_project_public (p q : Nat) (ms : List Nat) (S : FS) (hf : S.f
   have hPnd : P.ndim = S.ndim := projectCore_ndim ms S
   have hcondP : ¬ (p = 0 ∨ q = 0 ∨ p = q ∨ P.ndim < p ∨ P.ndim < q) := by rw [hPnd]; omega
   have hcondS : ¬ (p = 0 ∨ q = 0 ∨ p = q ∨ S.ndim < p ∨ S.ndim < q) := by omega
-  have hA : combineTwo p q P = some (combineTwoCore a b P) := by simp only [combineTwo, if_neg hcondP]; rfl
-  have hC : combineTwo p q S = some (combineTwoCore a b S) := by simp only [combineTwo, if_neg hcondS]; rfl
+  have hA : combineTwo p q P = some (combineTwoCore a b P) := by rw [combineTwo, if_neg hcondP, c2Pair_eq]
+  have hC : combineTwo p q S = some (combineTwoCore a b S) := by rw [combineTwo, if_neg hcondS, c2Pair_eq]
   have hadm' : AdmSizes (merge2 a b ms) (combineTwoCore a b S).shape := hadm.merge a b hab hbd hma hmb
   have hCf : (combineTwoCore a b S).folded = false := by
     show (Gen.c2PropagatesFolded && S.folded) = false
